@@ -686,7 +686,9 @@ Definition apply_pack (tid : nat) (s : mst) (p : list acmd) : res mst :=
         let s1 := if Nat.ltb i (length (slots s)) then s
                   else set_locs (set_slots s (resize (slots s) (S i) null_slot)) (resize (locs s) (S i) default_loc) in
         do sl <- upd_res (slots s1) i {| s_id := fst h; s_ver := snd h |};
-        Ok (Some (set_slots s1 sl, (if has_action then m else 0), (if has_action then sh else si_null), true, t))
+        (* the recorded mask closed under the declared dependencies *)
+        do ex <- (if has_action then extra_components s m else Ok 0);
+        Ok (Some (set_slots s1 sl, (if has_action then munion m ex else 0), (if has_action then sh else si_null), true, t))
       | _ =>
         if is_valid s h then
           do la <- loc_arch s h;
@@ -852,7 +854,7 @@ Inductive op :=
 | OChunkFn (mn mx : nat) (m : mask)
 | OBuild (tid : nat) (target : option handle) (assigns : list (nat * Z)) (removes : list nat)
 | OTeardown
-| ORunJob (j : job) (parallel : bool) (tasks_override : nat) (workers : nat) (cap : nat).
+| ORunJob (j : job) (parallel : bool) (tasks_override : nat) (workers : nat) (cap : nat) (acts : list (nat * bool * handle * nat)).
 
 Inductive out := RNone | RHandle (h : handle) | RBool (b : bool) | RCell (present : bool) (v : cell) | RNullHandle
 | RJob (last : N) (arrays : list (nat * nat * list (handle * list (option cell)))).   (* task, first entity index, entities *)
@@ -903,6 +905,40 @@ Definition build_update_unlocked (s : mst) (h : handle) (assigns : list (nat * Z
   let '(s1, ai) := r in
   do s2 <- external_move s1 ai h pai pidx skip;
   fold_res (fun st (a : nat * Z) => init_component_arch st h (fst a) (snd a)) assigns s2.
+
+(* markDirty / getComponent<false>: stamp the version chunk of the entity with the live world version *)
+Definition mark_dirty (s : mst) (h : handle) (c : nat) : res mst :=
+  if negb (is_valid s h) then Ok s else
+  do la <- loc_arch s h;
+  let '(ai, idx) := la in
+  do a <- nth_res (archs s) ai;
+  match cindex (am_mask a) c with
+  | None => Ok s
+  | Some ci =>
+    do ch <- chunk_at a idx;
+    do a1 <- vs_set_one a (wv s) ch ci;
+    Ok (set_arch s ai a1)
+  end.
+
+Definition get_mut (s : mst) (h : handle) (c : nat) (w : option Z) : res (mst * out) :=
+  if negb (is_valid s h) then Ok (s, RCell false None) else
+  do l <- nth_res (locs s) (N.to_nat (fst h));
+  match l_arch l with
+  | None => Ok (s, RCell false None)
+  | Some ai =>
+    do a <- nth_res (archs s) ai;
+    match cindex (am_mask a) c with
+    | None => Ok (s, RCell false None)
+    | Some ci =>
+      do ch <- chunk_at a (l_idx l);
+      do a1 <- vs_set_one a (wv s) ch ci;      (* EntityManager::worldVersion(): the live world version *)
+      let a2 := match w with Some x => put_cell a1 ci (l_idx l) (Some x) | None => a1 end in
+      Ok (set_arch s ai a2, RCell true (get_cell a2 ci (l_idx l)))
+    end
+  end.
+
+(* what a job callback does besides reading: (entity index, getmut?, handle, component) *)
+Definition jobact := (nat * bool * handle * nat)%type.
 
 (* lock() / unlock(): entity_manager.hpp:443-465 *)
 Definition do_lock (s : mst) : mst :=
@@ -1071,34 +1107,8 @@ Definition step (s : mst) (o : op) : res (mst * out) :=
       | Some ci => Ok (s, RCell true (get_cell a ci (l_idx l)))
       end
     end
-  | OGetMut h c w =>
-    if negb (is_valid s h) then Ok (s, RCell false None) else
-    do l <- nth_res (locs s) (N.to_nat (fst h));
-    match l_arch l with
-    | None => Ok (s, RCell false None)
-    | Some ai =>
-      do a <- nth_res (archs s) ai;
-      match cindex (am_mask a) c with
-      | None => Ok (s, RCell false None)
-      | Some ci =>
-        do ch <- chunk_at a (l_idx l);
-        do a1 <- vs_set_one a (wv s) ch ci;      (* EntityManager::worldVersion(): the live world version *)
-        let a2 := match w with Some x => put_cell a1 ci (l_idx l) (Some x) | None => a1 end in
-        Ok (set_arch s ai a2, RCell true (get_cell a2 ci (l_idx l)))
-      end
-    end
-  | OMarkDirty h c =>
-    if negb (is_valid s h) then Ok (s, RNone) else
-    do la <- loc_arch s h;
-    let '(ai, idx) := la in
-    do a <- nth_res (archs s) ai;
-    match cindex (am_mask a) c with
-    | None => Ok (s, RNone)
-    | Some ci =>
-      do ch <- chunk_at a idx;
-      do a1 <- vs_set_one a (wv s) ch ci;
-      Ok (set_arch s ai a1, RNone)
-    end
+  | OGetMut h c w => get_mut s h c w
+  | OMarkDirty h c => do s1 <- mark_dirty s h c; Ok (s1, RNone)
   | OHas h c =>
     if negb (is_valid s h) then Ok (s, RBool false) else
     do l <- nth_res (locs s) (N.to_nat (fst h));
@@ -1122,7 +1132,7 @@ Definition step (s : mst) (o : op) : res (mst * out) :=
             | _ => Ok st'
             end) b st) (combine (seq 0 (length (bufs s1))) (bufs s1)) s1;
     Ok (s2, RNone)
-  | ORunJob j parallel tov workers cap =>
+  | ORunJob j parallel tov workers cap acts =>
     (* BaseJob::run: base_job.cpp:91-139 *)
     do r <- job_filter s j;
     let '(s1, fas0) := r in
@@ -1144,7 +1154,11 @@ Definition step (s : mst) (o : op) : res (mst * out) :=
                             do es <- array_visits s2 j (fa_arch fa) start len;
                             Ok ((idx2 + len)%nat, o2 ++ [(k, idx2, es)])) arrs (idx, out_);
                   Ok (S k, fst r2, snd r2)) per_task (O, O, []);
-      do r3 <- do_unlock s2;
+      (* the callback's own modifications, made while the manager is locked and the world version already advanced *)
+      do s2' <- fold_res (fun st (a : nat * bool * handle * nat) =>
+                  let '(idx, gm, h, c) := a in
+                  if Nat.ltb idx total then (if gm then do r <- get_mut st h c None; Ok (fst r) else mark_dirty st h c) else Ok st) acts s2;
+      do r3 <- do_unlock s2';
       Ok (fst r3, RJob last' (snd vis))
     end
   end.
